@@ -229,7 +229,10 @@ namespace fastscapelib
 
         neighbors_indices_type& get_storage(const std::size_t& /*idx*/)
         {
-            return m_node_neighbors;
+            // one buffer per thread: neighbor look-ups may run concurrently
+            // (e.g., multi-threaded flow routing)
+            static thread_local neighbors_indices_type node_neighbors;
+            return node_neighbors;
         }
 
         void store(const std::size_t& /*idx*/, const neighbors_indices_type neighbors_indices)
